@@ -43,7 +43,8 @@ THEOREMS = ["Banyan.C04." + t for t in [
     "meta_name", "primary_name", "timestamps_name", "fv_name", "tf_name", "tfm_name", "tagType_name",
     "metadata_name", "snapshot_suffix", "tmp_suffix", "writeAtomic_order", "mustFlush_order", "mergeParts_order",
     "mergeOut_metadata_last", "snapshot_atomic", "clean_after_flush", "clean_after_merge"]] + [
-    "Banyan.C04Seg." + t for t in ["seg_crash_recovers_atomic", "seg_as_written_loses_rows",
+    "Banyan.C04Seg." + t for t in ["seg_crash_recovers", "seg_crash_recovers_atomic", "mem_crashTrees",
+                                   "seg_as_written_loses_rows", "seg_as_written_loses_rows_power",
                                    "seg_as_written_fails_to_open", "seg_as_written_violations"]]
 
 
@@ -1621,7 +1622,7 @@ def eval_mutated(ctx, h, rng, n):
 # ----------------------------------------------------------------------------------------------------------
 # the check
 
-LEAN_MODULES = ["Banyan.Props.C04", "Banyan.Props.C04Seg", "Banyan.Tie.C04"]
+LEAN_MODULES = ["Banyan.Props.C04", "Banyan.Props.C04Seg", "Banyan.Props.C04SegAsWritten", "Banyan.Tie.C04"]
 
 TRUSTED = [
     "Lean 4.33.0 kernel",
